@@ -142,6 +142,20 @@ def run_property(pid, tier, repo, jobs=12):
     first = go(us[0])
     if first[1]["verdict"] is None and not first[1]["timed_out"]:
         res["infra"].append("kani build/run failed: " + (first[1].get("error_tail") or "")[-600:])
+        # The verifier is undecided for the whole property (typically: a struct-literal child module no longer matches a
+        # changed struct).  Undecided is not a verdict - but a concrete failing input of the REAL code found by a registered
+        # bounded native search is a violation in its own right, replayable without the verifier.
+        for u in us:
+            if (u.get("replay") or {}).get("kind") != "search": continue
+            confirmed, txt = native_replay(repo, u, [])
+            res["bounded_units"].append({"id": u["id"] + "/native-search", "backend": "native bounded search (verifier undecided)", "bound": " ".join([u["replay"]["bin"]] + u["replay"]["args"]),
+                                         "status": "refuted" if confirmed else ("discharged" if confirmed is False else "undecided")})
+            if confirmed:
+                path = common.write_replay(pid, u["id"] + "_native", {"property": pid, "kind": "native-bounded-search (verifier undecided: kani build failed)", "unit": u["id"],
+                                                                      "failed_obligations": [{"description": u.get("contract")}], "native_replay_confirms": True, "native_replay_output": txt,
+                                                                      "kani": True, "replay": u.get("replay"), "decoded": []})
+                print("  native witness (verifier undecided): %s" % txt[:400].replace("\n", " | "))
+                res["violation_lines"].append("VIOLATION property=%s replay=%s" % (pid, path))
         return res
     runs = [first]
     # memory-aware scheduling: big formulas (several GB of CBMC each; the OOM killer was observed at 12 in parallel)
